@@ -66,10 +66,12 @@ func genKnobs(r *core.Rand) SKnobs {
 	k := SKnobs{}
 	k.Partitions = core.Pick(r, []int{1, 1, 1, 1, 1, 1, 2, 2, 3, 4, 8, 16})
 	k.RowsPerSegment = core.Pick(r, []int{8, 8, 16, 16, 1000})
-	k.SegmentLimit = core.Pick(r, []int{2, 3, 4, 65535})
+	_ = core.Pick(r, []int{2, 3, 4, 65535})
+	k.SegmentLimit = 65535 // not configurable in the product (no caller of the setter): left at its default
 	k.MinGroupFiles = core.Pick(r, []int{2, 2, 3, 4, 8})
 	k.MutableLimit = core.Pick(r, []int{30 << 20, 30 << 20, 2048, 512})
-	k.FileCursor = r.Bool(0.5)
+	_ = r.Bool(0.5)
+	k.FileCursor = true // the product never switches it off (only the repo's tests call EnableFileCursor(false))
 	k.ChunkSize = core.Pick(r, []int{1, 2, 3, 7, 1024})
 	k.MaxParallel = core.Pick(r, []int{1, 2, 8})
 	return k
